@@ -33,7 +33,7 @@ QueueOk == \A N \in QN :
   /\ \A i \in 0..(s.len - 1) : QIndex(s, N, i) = LastN(hist, N)[i + 1]
 
 Inv == IF Aspect = "tandem" THEN TandemOk ELSE QueueOk
-Printer == PrintT(<<"REPLAY", ToJson([aspect |-> Aspect, keys |-> keys, hist |-> hist,
+Printer == PrintT(<<"REPLAY", ToJson([kind |-> Aspect, aspect |-> Aspect, keys |-> keys, hist |-> hist,
                                       perm |-> StablePerm(keys, Len(keys)),
-                                      queue |-> [N \in QN |-> LastN(hist, N)]])>>)
+                                      queue |-> <<LastN(hist, 1), LastN(hist, 2), LastN(hist, 3), LastN(hist, 7)>>])>>)
 =============================================================================
